@@ -1,4 +1,9 @@
 from verif import Q
+try:
+    import C15_t0_part as _t0
+except Exception as _e:   # the T0-native part needs encoders/t0tool.py
+    _t0 = None
+    _t0_err = repr(_e)
 
 META = {
  "level_text": "Bounded symbolic model checking (CBMC) of the real C policy units of the negotiation: br_ssl_choose_hash for every mask, the single-RSA / single-EC server policy handlers (choose) for every list of up to 4 translated client suites with all flag, hash-mask, version, usage and issuer-type combinations, and the single-RSA / single-EC client certificate handlers (choose) for every auth_types mask, each against a reference written from bearssl_ssl.h. Partial: version selection, suite intersection, ALPN/SNI and the client's acceptance of the ServerHello are T0 code and outside.",
@@ -35,7 +40,7 @@ META = {
 }
 
 
-def queries():
+def _base_queries():
     qs = []
     qs.append(Q("choose-hash", "C15_hash.c", units=["src/ssl/ssl_hashes.c"], unwind=8,
                 desc="br_ssl_choose_hash == documented preference order, every 32-bit mask; 0 iff no SHA-1..SHA-512 bit"))
@@ -53,3 +58,14 @@ def queries():
     qs.append(Q("ccert-ec-choose", "C15_ccert.c", units=["src/ssl/ssl_hashes.c"], defs=["-DPOLICY_EC=1"], unwind=40,
                 desc="client single-EC cc_choose vs documented contract, every auth_types mask, usages, issuer type, curves"))
     return qs
+
+
+def queries():
+    qs = _base_queries()
+    if _t0 is not None:
+        qs = qs + _t0.queries()
+    return qs
+
+if _t0 is not None:
+    META["assumptions"] = list(META.get("assumptions", [])) + list(getattr(_t0, "ASSUMPTIONS", []))
+    META["mutants_tried"] = list(META.get("mutants_tried", [])) + list(getattr(_t0, "MUTANTS", []))
